@@ -3,7 +3,7 @@ from __future__ import annotations
 
 import ast
 
-from ..effects import (inplace_on_shared, process_wide_caches, module_state_writes, class_state_writes, mutated_params, unordered_loops, commutative_body, ambient_uses,
+from ..effects import (set_typed_names, unordered_comprehensions, inplace_on_shared, process_wide_caches, module_state_writes, class_state_writes, mutated_params, unordered_loops, commutative_body, ambient_uses,
                        open_calls, is_fresh_expr, local_names)
 from ..libsum import parse_lib
 from ..model import Model, Mod, dotted_name, src, DEAD_MODULES, member_kind
@@ -59,6 +59,8 @@ def total(values):
     for v in set(values):
         s += v
     return s
+def total2(values):
+    return sum(v for v in set(values))
 def scale(a, f):
     a *= f
     return a
@@ -281,8 +283,19 @@ def r_unordered(ctx, model):
     if len(fl) != 1 or commutative_body(fl[0][1])[0]:
         raise AnalysisError("positive control for order-dependent set iteration failed")
     n = 0
+    fc = unordered_comprehensions(fx)
+    if not fc:
+        raise AnalysisError("positive control for order-dependent consumption of a set failed")
+    modsets, paramsets = set_typed_names(model, list(live_modules(model)))
     for mname, mod in live_modules(model):
-        for q, loop, desc in unordered_loops(mod):
+        psets = {q_: v for (m_, q_), v in paramsets.items() if m_ == mname}
+        for q, node, desc, consumer in unordered_comprehensions(mod, modsets.get(mname, ()), psets):
+            n += 1
+            ctx.violation(f"{q}:{desc}:{consumer}", Where(mod.rel, q, node.lineno), expected="an ordered collection (or an order-insensitive consumer: set, sorted, any, all, min, max, len)",
+                          found=f"{consumer}({src(node)[:70]})", explanation=f"{q} hands the items of an unordered collection ({desc}), in hash order, to {consumer}: sums of "
+                          f"floating-point terms, lists and joined strings then depend on the interpreter's hash seed (PYTHONHASHSEED) in their last digits or their order",
+                          instance=f"{mname}:{q}:{desc}")
+        for q, loop, desc in unordered_loops(mod, modsets.get(mname, ()), psets):
             n += 1
             ok, why = commutative_body(loop, mod.funcs.get(q))
             ctx.check(ok, f"{mname}:{q} iterates over {desc}: commutative body", Where(mod.rel, q, loop.lineno), expected="keyed stores by the loop variable only",
